@@ -376,13 +376,20 @@ def replay_file(root, h, replay_path):
         logf = os.path.join(root, f"playback-{h.name}-{prof}.txt")
         with open(logf, "w") as lf:
             try:
+                # build first (not timed), then run the one test under a watchdog: a playback that does not
+                # terminate reproduces a non-termination counterexample (failed unwinding assertion)
+                subprocess.run(cmd[:-2] + ["--no-run"], cwd=mirror, env=kani_env(), stdout=lf,
+                               stderr=subprocess.STDOUT, timeout=3600)
                 p = subprocess.run(cmd, cwd=mirror, env=kani_env(), stdout=lf,
-                                   stderr=subprocess.STDOUT, timeout=3600)
+                                   stderr=subprocess.STDOUT, timeout=300)
                 rc = p.returncode
             except subprocess.TimeoutExpired:
                 rc = -9
         txt = open(logf, errors="replace").read()
-        if re.search(r"test result: FAILED", txt) or re.search(r"panicked at", txt):
+        if rc == -9:
+            res[prof] = "reproduced"
+            res[prof + "_panic"] = "the native playback did not terminate within 300 s (non-termination)"
+        elif re.search(r"test result: FAILED", txt) or re.search(r"panicked at", txt):
             res[prof] = "reproduced"
         elif re.search(r"test result: ok\. [1-9]", txt):
             res[prof] = "not-reproduced"
@@ -537,7 +544,8 @@ def do_check(root, reg, prop, tier, seed, args):
     group_info = []
     memcap_kb = int(os.environ.get("VERIF_MEMCAP_KB", str(24 * 1024 * 1024)))
     for (crate, flags), hs in groups.items():
-        jobs = max(1, min(len(hs), ncpu))
+        # memory, not cores, is the limit on this machine (62 GB, no swap; Layout harnesses take 4-10 GB each)
+        jobs = max(1, min(len(hs), ncpu, int(os.environ.get("VERIF_JOBS", "6"))))
         js, logf, tdir, wall, rc = run_group(mirror, root, crate, flags, hs, jobs, memcap_kb)
         r = parse_results(js, logf, tdir, hs)
         results.update(r)
@@ -568,6 +576,12 @@ def do_check(root, reg, prop, tier, seed, args):
                     known_hits.append(k)
                 r["known_finding"] = [k["id"] for k in kh]
                 continue
+            if violations and os.environ.get("VERIF_REPLAY_ALL", "0") != "1":
+                # one natively reproduced violation already decides the exit status; the further refuted
+                # harnesses are reported but not replayed (set VERIF_REPLAY_ALL=1 to replay every one)
+                r["replay"] = "skipped: another violation of this run was already reproduced natively"
+                log(f"      (replay skipped for {name}: a violation was already reproduced in this run)")
+                continue
             os.makedirs(REPLAY_DIR, exist_ok=True)
             replay_path = os.path.join(REPLAY_DIR, f"{prop}-{name}.rs")
             test = gen_playback(mirror, root, h)
@@ -582,6 +596,21 @@ def do_check(root, reg, prop, tier, seed, args):
                 violations.append((name, replay_path, r["failed"][0]))
             else:
                 inconclusive.append((name, f"counterexample did not reproduce natively: {rp}"))
+        elif st == "unwinding-insufficient" and h.meta.get("unwind_ok", "") != "":
+            # the harness declares (`@unwind_ok`) that its bound is sufficient on correct code, so a failed
+            # unwinding assertion means a loop that runs longer than it ever should: replay it natively
+            for c in r.get("failed", [])[:4]:
+                log(f"      {c['category']}: {c['description']} @ {c['at']}")
+            os.makedirs(REPLAY_DIR, exist_ok=True)
+            replay_path = os.path.join(REPLAY_DIR, f"{prop}-{name}.rs")
+            test = gen_playback(mirror, root, h)
+            rp = run_playback(root, h, test, replay_path) if test else {}
+            r["replay"] = rp or "no concrete playback test produced"
+            if "reproduced" in (rp.get("dev"), rp.get("release")):
+                r["replay_path"] = replay_path
+                violations.append((name, replay_path, r["failed"][0]))
+            else:
+                inconclusive.append((name, st))
         else:
             for c in r.get("failed", [])[:4]:
                 log(f"      {c['category']}: {c['description']} @ {c['at']}")
